@@ -3109,3 +3109,365 @@ async fn browser_node_accepts_the_lite_block_its_server_builds() {
             .validate(&blockchain, &blockchain.utxoset, &browser, &t.storage, false)
             .await) { witness(format!("a browser node must accept the honest lite block its server builds when two neighbouring transactions are left out : the root recomputed from its entries is not the root the header commits to")); }
 }
+
+/// C02: value leaves the spendable set only into the treasury, the graveyard, a payout or a fee: the payload of an NFT group whose first Bound slip was spent without it is still rebroadcast or collected when its block leaves the window
+#[allow(dead_code)]
+#[derive(Debug)]
+struct AuditDemoNftConfig {
+    consensus: crate::core::util::configuration::ConsensusConfig,
+    blockchain: crate::core::util::configuration::BlockchainConfig,
+}
+impl crate::core::util::configuration::Configuration for AuditDemoNftConfig {
+    fn get_server_configs(&self) -> Option<&crate::core::util::configuration::Server> {
+        None
+    }
+    fn get_peer_configs(&self) -> &Vec<crate::core::util::configuration::PeerConfig> {
+        todo!()
+    }
+    fn get_blockchain_configs(&self) -> &crate::core::util::configuration::BlockchainConfig {
+        &self.blockchain
+    }
+    fn get_block_fetch_url(&self) -> String {
+        "".to_string()
+    }
+    fn is_spv_mode(&self) -> bool {
+        false
+    }
+    fn is_browser(&self) -> bool {
+        false
+    }
+    fn replace(&mut self, _config: &dyn crate::core::util::configuration::Configuration) {
+        todo!()
+    }
+    fn get_consensus_config(
+        &self,
+    ) -> Option<&crate::core::util::configuration::ConsensusConfig> {
+        Some(&self.consensus)
+    }
+}
+
+/// value the ledger holds once `block` is the tip, in unbounded arithmetic: spendable in-window
+/// outputs now, plus what the block's transactions add and remove, plus the reservoirs in the
+/// block's header. (`window_start` : lowest block id whose outputs are still in the window)
+fn audit_demo_nft_supply(
+    blockchain: &crate::core::consensus::blockchain::Blockchain,
+    block: Option<&Block>,
+    genesis_period: u64,
+) -> u128 {
+    let tip = match block {
+        Some(block) => block,
+        None => blockchain.get_latest_block().unwrap(),
+    };
+    let window_start = tip.id.saturating_sub(genesis_period);
+    let mut supply: u128 = 0;
+    for (key, spendable) in blockchain.utxoset.iter() {
+        if *spendable {
+            let slip = Slip::parse_slip_from_utxokey(key).unwrap();
+            if slip.slip_type != SlipType::Bound && slip.block_id >= window_start {
+                supply += slip.amount as u128;
+            }
+        }
+    }
+    if let Some(block) = block {
+        for tx in block.transactions.iter() {
+            for output in tx.to.iter() {
+                if output.slip_type != SlipType::Bound {
+                    supply += output.amount as u128;
+                }
+            }
+            for input in tx.from.iter() {
+                // (the outputs a rebroadcast consumes have just left the window)
+                if input.slip_type != SlipType::Bound && input.block_id >= window_start {
+                    supply -= input.amount as u128;
+                }
+            }
+        }
+    }
+    supply
+        + tip.treasury as u128
+        + tip.graveyard as u128
+        + tip.previous_block_unpaid as u128
+        + tip.total_fees as u128
+}
+
+/// the block an honest producer builds on the tip from the given transactions
+async fn audit_demo_nft_build_block(
+    t: &TestManager,
+    timestamp: u64,
+    txs: Vec<Transaction>,
+    with_golden_ticket: bool,
+) -> Block {
+    let (public_key, private_key) = {
+        let wallet = t.wallet_lock.read().await;
+        (wallet.public_key, wallet.private_key)
+    };
+    let configs = t.config_lock.read().await;
+    let blockchain = t.blockchain_lock.read().await;
+    let parent = blockchain.get_latest_block().unwrap();
+    let parent_hash = parent.hash;
+    let gt_tx = if with_golden_ticket {
+        let golden_ticket = TestManager::create_golden_ticket(
+            t.wallet_lock.clone(),
+            parent_hash,
+            parent.difficulty,
+        )
+        .await;
+        Some(
+            crate::core::consensus::wallet::Wallet::create_golden_ticket_transaction(golden_ticket, &public_key, &private_key)
+                .await,
+        )
+    } else {
+        None
+    };
+    let mut transactions: ahash::AHashMap<crate::core::defs::SaitoSignature, Transaction> =
+        Default::default();
+    for mut tx in txs {
+        tx.generate(&public_key, 0, 0);
+        transactions.insert(tx.signature, tx);
+    }
+    let mut block = Block::create(
+        &mut transactions,
+        parent_hash,
+        &blockchain,
+        timestamp,
+        &public_key,
+        &private_key,
+        gt_tx,
+        std::ops::Deref::deref(&configs),
+        &t.storage,
+    )
+    .await
+    .unwrap();
+    block.generate().unwrap();
+    block
+}
+
+/// a signed transaction spending the wallet's output of `amount` nolan created in block
+/// `block_id`, paying `fee` and returning the rest to the wallet
+async fn audit_demo_nft_spend(
+    t: &TestManager,
+    block_id: u64,
+    amount: Currency,
+    fee: Currency,
+) -> Transaction {
+    let (public_key, private_key) = {
+        let wallet = t.wallet_lock.read().await;
+        (wallet.public_key, wallet.private_key)
+    };
+    let blockchain = t.blockchain_lock.read().await;
+    let input = blockchain
+        .get_slips_for(public_key)
+        .into_iter()
+        .find(|slip| slip.block_id == block_id && slip.amount == amount)
+        .expect("the output to spend is in the utxoset");
+    let mut tx = Transaction::default();
+    tx.add_from_slip(input);
+    let mut output = Slip::default();
+    output.public_key = public_key;
+    output.amount = amount - fee;
+    tx.add_to_slip(output);
+    tx.sign(&private_key);
+    tx
+}
+
+#[tokio::test]
+#[serial_test::serial]
+async fn payload_of_an_nft_group_whose_bound_slip_was_spent_is_not_lost() {
+    #[allow(unused_imports)] use crate::core::consensus::wallet::Wallet;
+    #[allow(unused_imports)] use crate::core::util::test::test_manager::test::TestManager;
+    #[allow(unused_imports)] use crate::core::consensus::slip::Slip;
+    #[allow(unused_imports)] use crate::core::consensus::slip::SlipType;
+    #[allow(unused_imports)] use crate::core::defs::Currency;
+    #[allow(unused_imports)] use crate::core::consensus::transaction::Transaction;
+    #[allow(unused_imports)] use crate::core::consensus::transaction::TransactionType;
+    #[allow(unused_imports)] use crate::core::consensus::block::Block;
+    #[allow(unused_imports)] use std::panic::AssertUnwindSafe;
+    use crate::core::consensus::blockchain::{AddBlockResult, Blockchain};
+    use std::sync::Arc;
+    use tokio::sync::RwLock;
+
+    const GENESIS_PERIOD: u64 = 5;
+    let mut t = TestManager::default();
+    t.config_lock = Arc::new(RwLock::new(AuditDemoNftConfig {
+        consensus: crate::core::util::configuration::ConsensusConfig {
+            genesis_period: GENESIS_PERIOD,
+            heartbeat_interval: 100,
+            prune_after_blocks: 8,
+            max_staker_recursions: 3,
+            default_social_stake: 0,
+            default_social_stake_period: 60,
+        },
+        blockchain: Default::default(),
+    }));
+    t.blockchain_lock = Arc::new(RwLock::new(Blockchain::new(
+        t.wallet_lock.clone(),
+        GENESIS_PERIOD,
+        0,
+        60,
+    )));
+    let (public_key, private_key) = {
+        let wallet = t.wallet_lock.read().await;
+        (wallet.public_key, wallet.private_key)
+    };
+
+    // block 1 issues 1_000_000 + 1_000 nolan to the wallet
+    let mut issued = vec![];
+    for amount in [1_000_000u64, 1_000] {
+        let mut slip = Slip::default();
+        slip.public_key = public_key;
+        slip.amount = amount;
+        issued.push(slip);
+    }
+    t.initialize_from_slips(issued).await;
+    let initial_supply: u128 = 1_000_000 + 1_000;
+    let ts = t.get_latest_block().await.timestamp;
+    {
+        let blockchain = t.blockchain_lock.read().await;
+        assert_eq!(blockchain.get_latest_block_id(), 1);
+        assert_eq!(
+            audit_demo_nft_supply(&blockchain, None, GENESIS_PERIOD),
+            initial_supply
+        );
+    }
+
+    // block 2 : the wallet turns its 1_000_000 nolan output into an NFT group
+    // [Bound 1, Normal 500_000 (the payload), Bound 0] plus 500_000 nolan change
+    let create_nft = {
+        let blockchain = t.blockchain_lock.read().await;
+        let input = blockchain
+            .get_slips_for(public_key)
+            .into_iter()
+            .find(|slip| slip.amount == 1_000_000)
+            .unwrap();
+        let uuid = Wallet::create_nft_uuid(&input, "audit");
+        let mut tx = Transaction::default();
+        tx.transaction_type = TransactionType::Bound;
+        tx.add_from_slip(input);
+        for (key, amount, slip_type) in [
+            (public_key, 1u64, SlipType::Bound),
+            (public_key, 500_000, SlipType::Normal),
+            (uuid, 0, SlipType::Bound),
+            (public_key, 500_000, SlipType::Normal),
+        ] {
+            let mut output = Slip::default();
+            output.public_key = key;
+            output.amount = amount;
+            output.slip_type = slip_type;
+            tx.add_to_slip(output);
+        }
+        tx.sign(&private_key);
+        tx
+    };
+
+    for id in 2..=7u64 {
+        let txs = match id {
+            2 => vec![create_nft.clone()],
+            3 => {
+                // block 3 : a "transfer" of the NFT that names the two Bound slips of the group and,
+                // between them, a zero-amount slip in the place of the 500_000 nolan payload: the
+                // first Bound slip is spent, the payload is not
+                let blockchain = t.blockchain_lock.read().await;
+                let bound1 = blockchain
+                    .get_slips_for(public_key)
+                    .into_iter()
+                    .find(|slip| slip.slip_type == SlipType::Bound && slip.block_id == 2)
+                    .expect("the first Bound slip of the group is in the utxoset");
+                assert_eq!(bound1.slip_index, 0);
+                let mut zero_payload = bound1.clone();
+                zero_payload.slip_type = SlipType::Normal;
+                zero_payload.amount = 0;
+                zero_payload.slip_index = 1;
+                let mut bound3 = bound1.clone();
+                bound3.public_key = create_nft.to[2].public_key;
+                bound3.amount = 0;
+                bound3.slip_index = 2;
+                let mut tx = Transaction::default();
+                tx.transaction_type = TransactionType::Bound;
+                for slip in [bound1, zero_payload, bound3] {
+                    let mut output = slip.clone();
+                    output.block_id = 0;
+                    output.tx_ordinal = 0;
+                    tx.add_from_slip(slip);
+                    tx.add_to_slip(output);
+                }
+                tx.sign(&private_key);
+                vec![tx]
+            }
+            // (a block needs a transaction : free ones, moving the 1_000 nolan output along)
+            4 => vec![audit_demo_nft_spend(&t, 1, 1_000, 0).await],
+            6 => vec![audit_demo_nft_spend(&t, 4, 1_000, 0).await],
+            _ => vec![],
+        };
+        let block = audit_demo_nft_build_block(&t, ts + id * 120_000, txs, id % 2 == 1).await;
+        {
+            // control : every one of these blocks conserves the supply
+            let blockchain = t.blockchain_lock.read().await;
+            assert_eq!(
+                audit_demo_nft_supply(&blockchain, Some(&block), GENESIS_PERIOD),
+                initial_supply,
+                "block {}",
+                id
+            );
+        }
+        let result = t.add_block(block).await;
+        assert!(
+            matches!(result, AddBlockResult::BlockAddedSuccessfully(_, true, _)),
+            "block {}",
+            id
+        );
+    }
+    {
+        let blockchain = t.blockchain_lock.read().await;
+        assert_eq!(blockchain.get_latest_block_id(), 7);
+        // the payload is still unspent, the first Bound slip of its group is not
+        let slips = blockchain.get_slips_for(public_key);
+        assert!(slips.iter().any(|slip| slip.block_id == 2
+            && slip.slip_index == 1
+            && slip.amount == 500_000
+            && slip.slip_type == SlipType::Normal));
+        assert!(!slips
+            .iter()
+            .any(|slip| slip.block_id == 2 && slip.slip_type == SlipType::Bound));
+        assert_eq!(
+            audit_demo_nft_supply(&blockchain, None, GENESIS_PERIOD),
+            initial_supply
+        );
+    }
+
+    // block 8, as an honest producer builds it : block 2 leaves the window, its unspent outputs are
+    // due for rebroadcast
+    let block8 = audit_demo_nft_build_block(&t, ts + 8 * 120_000, vec![], false).await;
+    let rebroadcast: Vec<Currency> = block8
+        .transactions
+        .iter()
+        .filter(|tx| tx.transaction_type == TransactionType::ATR)
+        .map(|tx| tx.from.iter().map(|slip| slip.amount).sum())
+        .collect();
+    let block8_fees_atr = block8.total_fees_atr;
+    let (block8_valid, block8_supply);
+    {
+        let configs = t.config_lock.read().await;
+        let blockchain = t.blockchain_lock.read().await;
+        block8_valid = block8
+            .validate(
+                &blockchain,
+                &blockchain.utxoset,
+                std::ops::Deref::deref(&configs),
+                &t.storage,
+                true,
+            )
+            .await;
+        block8_supply = audit_demo_nft_supply(&blockchain, Some(&block8), GENESIS_PERIOD);
+    }
+    let outcome = futures::FutureExt::catch_unwind(std::panic::AssertUnwindSafe(
+        t.add_block(block8),
+    ))
+    .await;
+    let node_reaction = match &outcome {
+        Ok(AddBlockResult::BlockAddedSuccessfully(..)) => "add_block accepted it",
+        Ok(_) => "add_block refused it",
+        Err(_) => "add_block accepted it and the node then panicked in check_total_supply",
+    };
+
+    if !(!block8_valid || block8_supply == initial_supply) { witness(format!("block 8, built by Block::create and accepted by Block::validate ({}), lets block 2 leave the window with its unspent 500000 nolan NFT payload neither rebroadcast (rebroadcast inputs: {:?}, the change output alone) nor collected as a fee (total_fees_atr {}): because the first Bound slip of the group was spent the whole group is skipped, the supply falls from {} to {}", node_reaction, rebroadcast, block8_fees_atr, initial_supply, block8_supply)); }
+}
